@@ -381,6 +381,13 @@ class IdRules:
                     why = 'CAS false->true succeeded'
                 else:
                     t = cond_truth(p.conds, last['result'])
+                    if t is None:
+                        # the old value compared with zero (`exchange(kReserved) != kFree`), possibly after an integer promotion
+                        for c, o, _ in p.conds:
+                            if isinstance(c, tuple) and c and c[0] == 'op' and c[1] in ('!=', '==') and len(c) >= 4:
+                                a, b = self.unext(c[2]), self.unext(c[3])
+                                if (a == last['result'] and is_const(b) and b[1] == 0) or (b == last['result'] and is_const(a) and a[1] == 0):
+                                    t = (o if c[1] == '!=' else not o)
                     v_ = self.unext(last['value'])
                     nonzero = (is_const(v_) and v_[1] != 0) or (isinstance(v_, tuple) and v_ and v_[0] == 'op' and v_[1] == '|' and
                                                                 any(is_const(self.unext(x)) and self.unext(x)[1] != 0 for x in v_[2:4]))
